@@ -91,7 +91,7 @@ func genAckCase(t *rapid.T) AckCase {
 		x := int(rapid.Uint64().Draw(t, "kind") % 100)
 		fault, bad, drop := 3, 1, 1
 		if hostile {
-			fault, bad, drop = 9, 4, 4
+			fault, bad, drop = 9, 4, 2
 		}
 		switch {
 		case x < 55:
@@ -556,7 +556,9 @@ func executeAcks(c AckCase) (res ackResult, err error) {
 	// request out: a long publish timeout keeps timeouts out of the history
 	reqTimeout, keepAlive := 2*time.Second, uint32(300)
 	if c.hasDrop() {
-		reqTimeout, keepAlive = 500*time.Millisecond, 5
+		// 2 s: long enough that a response the server sent at once is not
+		// overtaken by the timeout on a busy machine, short enough to wait for
+		keepAlive = 20
 	}
 	var cl *opcua.Client
 	for attempt := 0; ; attempt++ {
@@ -618,7 +620,7 @@ func executeAcks(c AckCase) (res ackResult, err error) {
 	}
 
 	// ---- start the history: the newest held request gets the first step
-	// (with a publish timeout of 500 ms the held request may be about to time
+	// (with a publish timeout of 2 s the held request may be about to time
 	// out at the client: it is left unanswered and the history starts with the
 	// next request)
 	w.mu.Lock()
@@ -633,7 +635,14 @@ func executeAcks(c AckCase) (res ackResult, err error) {
 	// ---- wait for the end of the history (or for a stall)
 	stallBound := 3 * time.Second
 	if c.hasDrop() {
-		stallBound = 4 * time.Second
+		stallBound = 6 * time.Second
+	}
+	// legitimate gaps between two PublishRequests: the client's 1 s sleeps
+	// (BadTooManyPublishRequests, between Republish requests), a reconnect, and
+	// the publish timeout after a dropped request
+	kickAfter := 1800 * time.Millisecond
+	if c.hasDrop() {
+		kickAfter = 4 * time.Second
 	}
 	total := time.After(90 * time.Second)
 	stalled := false
@@ -647,7 +656,7 @@ wait:
 		switch {
 		case done:
 			break wait
-		case idle > stallBound && kicks < 2:
+		case idle > kickAfter && kicks < 2:
 			// the publish loop has stopped (e.g. the server claimed to have no
 			// subscription): another Subscribe starts it again, the history goes on
 			kicks++
@@ -656,7 +665,7 @@ wait:
 			sc()
 			w.mu.Lock()
 			w.lastReq = time.Now()
-			w.logf("publish loop idle for %v: extra Subscribe -> %v", stallBound, e)
+			w.logf("publish loop idle for %v: extra Subscribe -> %v", kickAfter, e)
 			w.mu.Unlock()
 		case idle > stallBound:
 			stalled = true
@@ -702,7 +711,7 @@ wait:
 	}
 	cls[fmt.Sprintf("subs=%d", c.Subs)] = true
 	if c.hasDrop() {
-		cls["publish-timeout=500ms"] = true
+		cls["publish-timeout=2s"] = true
 	} else {
 		cls["publish-timeout=30s"] = true
 	}
@@ -743,7 +752,7 @@ wait:
 		// the verdict assumes that a response the server sent at once was not
 		// overtaken by the client's publish timeout: not trusted if this process
 		// did not get the CPU
-		if c.hasDrop() && hb.Settle() > 150*time.Millisecond {
+		if c.hasDrop() && hb.Settle() > 500*time.Millisecond {
 			res.starved = true
 		}
 	}
@@ -790,7 +799,7 @@ func decideAcks(c *AckCase, logf func(string, ...any)) (msg string, res ackResul
 }
 
 func TestAcks(t *testing.T) {
-	rec.Assume("(b) trusted base: pkg/script (gopcua's server-side channel API) as the scripted server and observer of every PublishRequest; the client keeps at most two PublishRequests outstanding (clauses (ii) and (iii) wait for two more requests on the same connection before they count a response as processed); histories without dropped requests use a publish timeout of 30 s, histories with dropped requests 500 ms and are re-executed 3/3 with a starvation gate")
+	rec.Assume("(b) trusted base: pkg/script (gopcua's server-side channel API) as the scripted server and observer of every PublishRequest; the client keeps at most two PublishRequests outstanding (clauses (ii) and (iii) wait for two more requests on the same connection before they count a response as processed); histories without dropped requests use a publish timeout of 30 s, histories with dropped requests 2 s; every failure is re-executed (3/3) and a failure of a history with dropped requests is not trusted if the harness' heartbeats were more than 500 ms late")
 	rapid.Check(t, func(rt *rapid.T) {
 		c := genAckCase(rt)
 		rec.Journal("TestAcks", c)
